@@ -525,6 +525,35 @@ Qed.
 Lemma key_fields_present_proof : key_fields_present = true.
 Proof. vm_compute. reflexivity. Qed.
 
+(* ------------------------------------------------------------------------------------------ *)
+(* reversed tuple key (copy_reversed_tuples into a dirty destination)                           *)
+(* ------------------------------------------------------------------------------------------ *)
+Lemma c_copy_reversed_lists : forall prior A B C D x,
+  List.length prior = size_tk_c ->
+  List.length A = 16%nat -> List.length B = 16%nat -> List.length C = 2%nat -> List.length D = 2%nat ->
+  c_copy_reversed prior (A ++ B ++ C ++ D ++ [x] ++ zeros 3) = (B ++ A ++ D ++ C ++ [x] ++ zeros 3)%list.
+Proof.
+  intros prior A B C D x HP HA HB HC HD.
+  destr_list A HA. destr_list B HB. destr_list C HC. destr_list D HD. reflexivity.
+Qed.
+
+Lemma flow_ok_reverse : forall f, flow_ok f -> flow_ok (reverse_flow f).
+Proof. intros f (a & b & c & d & e). unfold flow_ok, reverse_flow. cbn. tauto. Qed.
+
+Lemma reversed_tuple_key_bytes_proof :
+  forall (e : endian) (f : flow) (gs gd : goaddr) (prior : list N),
+    flow_ok f -> same_family f -> go_repr gs (f_src f) -> go_repr gd (f_dst f) ->
+    List.length prior = size_tk_c ->
+    c_reversed_flow_key e prior f = Some (spec_tuple_key (reverse_flow f))
+    /\ go_tuples_key e gd gs (f_dport f) (f_sport f) (f_proto f) = spec_tuple_key (reverse_flow f).
+Proof.
+  intros e f gs gd prior Hok F Rs Rd HP. split.
+  - unfold c_reversed_flow_key. rewrite c_flow_key_spec by assumption. unfold spec_tuple_key at 1.
+    rewrite c_copy_reversed_lists by (try assumption; try apply mapped16_length; apply be_bytes_length).
+    reflexivity.
+  - apply (go_tuples_key_spec e (reverse_flow f) gd gs); [apply flow_ok_reverse; assumption | assumption | assumption].
+Qed.
+
 Lemma nonvacuous_proof :
   let f := mkflow (IP4 0x01020304) (IP4 0x0a060708) 40000 53 17 in
   flow_ok f /\ same_family f /\ go_repr (G6 (0xffff * 2 ^ 32 + 0x01020304)) (f_src f) /\ go_repr (G4 0x0a060708) (f_dst f)
